@@ -59,7 +59,7 @@ def run(tier):
                 pass
     from ..tlc import run_tlc, require_clean
     from ..common import NCPU, Machinery
-    mr = require_clean(run_tlc('MCFormats.tla', 'MCFormats.cfg' if tier == 'quick' else 'MCFormats_4.cfg', workers=NCPU, timeout=1800), 'MCFormats')
+    mr = require_clean(run_tlc('MCFormats.tla', 'MCFormats.cfg' if tier == 'quick' else 'MCFormats_5.cfg', workers=NCPU, timeout=7200, xmx='12g'), 'MCFormats')
     if mr.violated:
         raise Machinery('Formats.tla laws violated (specification inconsistent): %s' % mr.violated)
     rejects, stats = validate('traces/RenderTrace.tla', events, 'c08', per_shard=400)
